@@ -101,7 +101,9 @@ SHAPES = {
     ("NativeTemplate", "render"): [
         "if self.environment.is_async:\n    import asyncio\n    return asyncio.run(self.render_async(*args, **kwargs))",
         "ctx = self.new_context(dict(*args, **kwargs))",
-        "try:\n    return self.environment_class.concat(self.root_render_func(ctx))\nexcept Exception:\n    return self.environment.handle_exception()"],
+        # the sync path is eager since /repo fc25515: all output nodes are evaluated (list(...)) before native_concat sees
+        # them, exactly like render_async; native_concat therefore receives a list on every entry point
+        "try:\n    return self.environment_class.concat(list(self.root_render_func(ctx)))\nexcept Exception:\n    return self.environment.handle_exception()"],
     ("NativeTemplate", "render_async"): [
         "if not self.environment.is_async:\n    raise RuntimeError('The environment was not created with async mode enabled.')",
         "ctx = self.new_context(dict(*args, **kwargs))",
